@@ -1,7 +1,7 @@
 """C01 — Incremental build result equals a from-scratch build (engine bookkeeping invariants)."""
 from rules import engine as E
 
-UNITS = ["lib/Core/BuildEngine.cpp", "lib/Core/SQLiteBuildDB.cpp"]
+UNITS = ["lib/Core/BuildEngine.cpp", "lib/Core/SQLiteBuildDB.cpp", "products/libllbuild/BuildDB-C-API.cpp"]
 THOROUGH_ALL_UNITS = False
 EXPLANATION = ("Decides the epoch / dependency bookkeeping invariants every history relies on: the guards of the "
                "up-to-date verdict, the frozen table of epoch comparisons (strict staleness test with checked operand "
@@ -27,6 +27,10 @@ def run(ctx):
     E.r_cancel_clears(prog, rep)      # what a cancelled build leaves in memory is what the next build on this engine starts from
     E.r_cancel_on_exit(prog, rep)
     E.r_prior_value_guard(prog, rep)
+    E.r_value_compare(prog, rep)
+    from sa.report import run_subset
+    from rules import C03
+    run_subset(C03, ctx, {"R-DEPBLOB-BITS", "R-DB-LOOKUP-ON-ADD"})     # the stored dependency list is read back as written; stored results are consulted
     E.r_epoch_persist(prog, rep)
     E.r_state_order(prog, rep)
     E.r_parallel_vectors(prog, rep)
